@@ -626,6 +626,7 @@ class Model:
             for ch in ast.iter_child_nodes(p_):
                 ch._parent = p_
         new._parent = getattr(fd, "_parent", None)
+        new._derived = True
         cache[key] = new
         return new
 
@@ -722,6 +723,7 @@ class Model:
             for ch in ast.iter_child_nodes(p_):
                 ch._parent = p_
         new._parent = getattr(fd, "_parent", None)
+        new._derived = True
         cache[id(fd)] = new
         return new
 
@@ -828,6 +830,7 @@ class Model:
             for ch in ast.iter_child_nodes(p_):
                 ch._parent = p_
         new._parent = getattr(fd, "_parent", None)
+        new._derived = True
         cache[id(fd)] = new
         return new
 
